@@ -22,9 +22,10 @@ PROPERTY = {
 }
 RP = {"native": True, "sources": ["a.c", "math.c"]}
 def C(name, fns, **kw):
-    kw.setdefault("solver", "cvc5"); kw.setdefault("timeout", 120); kw.setdefault("split", 4); kw.setdefault("min_obl", 2); kw.setdefault("cbmc", ["--slice-formula"])
+    kw.setdefault("solver", "cvc5"); kw.setdefault("timeout", 300); kw.setdefault("split", 4); kw.setdefault("min_obl", 2); kw.setdefault("cbmc", ["--slice-formula"])
     entry = kw.pop("entry_", "h_" + name)
     return U(name, "complex.c", entry, functions=fns, replay=RP, **kw)
+DROP = ["--bounds-check", "--pointer-check", "--div-by-zero-check", "--pointer-primitive-check"]  # secondary units: memory-safety obligations of the same functions are decided in their primary unit
 EXACT = "exact domain: integer parts |n| <= 8"
 UNITS = [
     C("const_pi", [], key=["A_REAL_PI is pi"]),
@@ -57,27 +58,27 @@ UNITS = [
     C("cosh", ["a_complex_cosh_"], key=["cosh_:"], min_obl=1),
     C("tanh", ["a_complex_tanh_"], key=["tanh_: Re", "tanh_: Im"]),
 ] + [C(n, ["a_complex_%s_" % n], key=[n + "_:"], min_obl=1) for n in ("sec", "csc", "cot", "sech", "csch", "coth")] + [
-    C("asin", ["a_complex_asin_"], key=["Re asin z in"], solver=None),
-    C("acos", ["a_complex_acos_"], key=["Re acos z in"], solver=None),
+    C("asin", ["a_complex_asin_"], key=["Re asin z in"], solver=None, timeout=400, cost=100, split=8),
+    C("acos", ["a_complex_acos_"], key=["Re acos z in"], solver=None, timeout=400, cost=90, split=8),
     # equality of the two evaluations: cvc5 (congruence); its vacuity guard needs a model of both bodies: SAT back end, sibling unit
-    C("asin_acos_twin", ["a_complex_asin_", "a_complex_acos_"], key=["Im asin z == -Im acos z"], min_obl=1, only=["^(?!.*VERIF_CANARY)"], no_canary=True, split=None),
-    C("asin_acos_twin_reach", [], solver=None, only=["VERIF_CANARY"], min_obl=0, entry_="h_asin_acos_twin"),
-    C("atan", ["a_complex_atan_"], key=["Re atan z in"], solver=None),
+    C("asin_acos_twin", ["a_complex_asin_", "a_complex_acos_"], key=["Im asin z == -Im acos z"], min_obl=1, only=["^(?!.*VERIF_CANARY)"], no_canary=True, split=None, drop_checks=DROP),
+    C("asin_acos_twin_reach", [], solver=None, only=["VERIF_CANARY"], min_obl=0, entry_="h_asin_acos_twin", drop_checks=DROP),
+    C("asin_acos_twin_points", ["a_complex_asin_", "a_complex_acos_"], key=["at z = 1.25"], drop_checks=DROP, only=["^(?!.*VERIF_CANARY)"], no_canary=True, split=None),
+    C("asin_acos_twin_points_reach", [], solver=None, only=["VERIF_CANARY"], min_obl=0, entry_="h_asin_acos_twin_points", drop_checks=DROP),
+    C("atan", ["a_complex_atan_"], key=["Re atan z in"], timeout=300, cost=50),
     C("inv_real", ["a_complex_asin_real", "a_complex_acos_real", "a_complex_acosh_real", "a_complex_atanh_real", "a_complex_asec_real", "a_complex_acsc_real"], key=["asin_real:", "acsc_real:"]),
-    C("inv_real_delegation", ["a_complex_asin_", "a_complex_acos_", "a_complex_atanh_"], key=["asin_real"]),
+    C("inv_real_delegation", ["a_complex_asin_", "a_complex_acos_", "a_complex_atanh_"], key=["asin_real"], drop_checks=DROP),
     C("asinh", ["a_complex_asinh_"], key=["-i asin\\(i z\\)"], min_obl=1, replace=["a_complex_asin_/contract_asin_"]),
     C("acosh", ["a_complex_acosh_"], key=["acosh z = -i acos z"], replace=["a_complex_acos_/contract_acos_"]),
-    C("acosh_range", ["a_complex_acosh_"], key=["Re acosh z >= 0"], solver=None),
-    C("acosh_lower", ["a_complex_acosh_"], key=["lower half plane"], min_obl=1, solver=None),
+    C("acosh_range", ["a_complex_acosh_"], key=["Re acosh z >= 0"], solver=None, timeout=400, cost=80, split=8),
+    C("acosh_lower", ["a_complex_acosh_"], key=["lower half plane"], min_obl=1, timeout=1200, tiers=("thorough",), cost=200),
     C("atanh", ["a_complex_atanh_"], key=["-i atan\\(i z\\)"], replace=["a_complex_atan_/contract_atan_"]),
 ] + [C(n, ["a_complex_%s_" % n], key=[n + "_:"], min_obl=1, replace=["a_complex_%s_/contract_%s_" % (f, f)]) for n, f in (("asec", "acos"), ("acsc", "asin"), ("asech", "acosh"), ("acsch", "asinh"), ("acoth", "atanh"))] + [
     C("acot", ["a_complex_acot_"], key=["acot\\(0\\)"], replace=["a_complex_atan_/contract_atan_"]),
-    C("wrappers_a", ["a_complex_sqrt", "a_complex_log2", "a_complex_log10", "a_complex_proj"], key=["by-value"]),
-    C("wrappers_b", ["a_complex_sin", "a_complex_cos", "a_complex_tan", "a_complex_sec", "a_complex_csc", "a_complex_cot"], key=["by-value"]),
-    C("wrappers_c", ["a_complex_sinh", "a_complex_cosh", "a_complex_tanh", "a_complex_sech", "a_complex_csch", "a_complex_coth"], key=["by-value"]),
-    C("wrappers_d", ["a_complex_asin", "a_complex_acos", "a_complex_atan"], key=["by-value"], replace=["a_complex_asin_/contract_asin_", "a_complex_acos_/contract_acos_", "a_complex_atan_/contract_atan_"]),
-    C("wrappers_e", ["a_complex_asec", "a_complex_acsc", "a_complex_acot"], key=["by-value"], replace=["a_complex_asin_/contract_asin_", "a_complex_acos_/contract_acos_", "a_complex_atan_/contract_atan_"]),
-    C("wrappers_f", ["a_complex_asinh", "a_complex_acosh", "a_complex_atanh"], key=["by-value"], replace=["a_complex_asinh_/contract_asinh_", "a_complex_acosh_/contract_acosh_", "a_complex_atanh_/contract_atanh_"]),
-    C("wrappers_g", ["a_complex_asech", "a_complex_acsch", "a_complex_acoth"], key=["by-value"], replace=["a_complex_asinh_/contract_asinh_", "a_complex_acosh_/contract_acosh_", "a_complex_atanh_/contract_atanh_"]),
-    C("wrappers_h", ["a_complex_pow", "a_complex_pow_real", "a_complex_logb"], key=["by-value"]),
+] + [
+    # by-value wrappers: the in-place function is replaced by its 'deterministic function of *ctx' contract on both sides
+    C("wrappers_" + k, ["a_complex_" + f for f in fs], key=["by-value"], drop_checks=DROP, min_obl=len(fs),
+      replace=["a_complex_%s_/contract_%s_" % (f, f) for f in fs])
+    for k, fs in (("a", ["sqrt", "exp", "log", "log2", "log10", "proj"]), ("b", ["sin", "cos", "tan", "sec", "csc", "cot"]), ("c", ["sinh", "cosh", "tanh", "sech", "csch", "coth"]),
+                  ("d", ["asin", "acos", "atan"]), ("e", ["asec", "acsc", "acot"]), ("f", ["asinh", "acosh", "atanh"]), ("g", ["asech", "acsch", "acoth"]), ("h", ["pow", "pow_real", "logb"]))
 ]
